@@ -178,4 +178,18 @@ PROPS = {
         'trusted_base': ['operator theory A-ops; lengths are integers, whose order relations are complementary',
                          'RuntimeAssertionFeedback.__init__/_handle_condition, equality_test, unit_test: bounded only'],
     },
+    'C19': {
+        'sidecars': ['contracts/c19_types.py'],
+        'quick_skip_targets': ['pedal.types.operations:apply_binary_operation'],
+        'native': 'c19',
+        'level': 'proof',
+        'explanation': 'The operand-type domain of the first clause is finite: 12 binary operators and 10 comparisons x the 36 '
+                       'ordered pairs of core types (int, float, str, list, tuple, bool) are all run through the real TIFA and '
+                       'compared with CPython on representative operands (792 ground obligations, exhaustive-eval). Symbolic: '
+                       'the table helper functions and (thorough tier: 729 paths) apply_binary_operation - always a pedal Type, '
+                       'AnyType operands passed through, ImpossibleType otherwise - are verified from the real source. '
+                       'Expression trees of depth 2 and nested JSON-like values are the bounded stand-in B-types.',
+        'trusted_base': ['one representative operand per core type stands for the type (CPython operator dispatch is per type)',
+                         'Type constructors / promote / clone: assumed contracts'],
+    },
 }
